@@ -59,17 +59,23 @@ DUP_KNOBS = {'stagger': [0.0, 1.0], 'n_min': 3, 'n_max': 4,
 DUP_COUNT = {'quick': 160, 'thorough': 3000}
 
 
+# the general family again with slow handshakes (each XML-RPC of a handshake takes 0 - 3 s, L3 engine) and instance
+# restarts: requests are emitted and answered while peers are being checked again
+SLOW_KNOBS = dict(KNOBS, handshake_skew=[0.0, 0.3, 1.0, 2.0, 3.0], actions=KNOBS['actions'] + ['restart', 'restart'])
+
+
 def plan(tier, seed):
     return [{'seed': seed * 1000003 + i} for i in range(COUNT[tier])] + \
         [{'seed': seed * 1000003 + 700000 + i, 'family': 'stuck-stopping'} for i in range(STUCK_COUNT[tier])] + \
         [{'seed': seed * 1000003 + 600000 + i, 'family': 'duplicated-copy-lost-while-stopping'}
-         for i in range(DUP_COUNT[tier])]
+         for i in range(DUP_COUNT[tier])] + \
+        [{'seed': seed * 1000003 + 900000 + i, 'family': 'slow-handshake'} for i in range(COUNT[tier] // 8)]
 
 
 def run_case(case):
     tracker = Tracker()
     mon = StopSequenceMonitor(tracker)
-    run = Run(case, {'stuck-stopping': STUCK_KNOBS, 'duplicated-copy-lost-while-stopping': DUP_KNOBS}.get(
+    run = Run(case, {'stuck-stopping': STUCK_KNOBS, 'duplicated-copy-lost-while-stopping': DUP_KNOBS, 'slow-handshake': SLOW_KNOBS}.get(
         case.get('family'), KNOBS), [tracker, mon])
     violations = run.execute()
     nontrivial = mon.counters.get('order_comparisons', 0) > 0 or mon.counters.get('closing_runs', 0) > 0
